@@ -615,13 +615,13 @@ func addHub(b *gBundle, r *RNG) {
 }
 
 type jsBundleCase struct {
-	fs       []srcFile
-	globals  data.Map
-	reg      *template.Registry
-	wire     string
-	gwire    string
-	msgs     []*memBundle // nil entry = no bundle
-	nt       bool
+	fs      []srcFile
+	globals data.Map
+	reg     *template.Registry
+	wire    string
+	gwire   string
+	msgs    []*memBundle // nil entry = no bundle
+	nt      bool
 }
 
 // translations builds an in-memory bundle for the compiled messages: kind 0 identity, 1 reversed,
@@ -692,7 +692,7 @@ func makeJsBundleCase(bg *bundleGen, r *RNG, hub bool) (*jsBundleCase, error) {
 var jsHandSources = []string{
 	"{namespace a}\n{template .t}\n{@param x: ?}\nA{@param y: ?}{$x}{$y}\n{/template}\n", // header param after content: Write fails
 	"{namespace a.b.c.d}\n/** @param x */\n{template .t}{foreach $x in $x}{$x}{/foreach}{for $x in range($x)}{$x}{/for}{/template}\n",
-	"{namespace n}\n/** @param? a\n @param? b */\n{template .t}{for $i in range(1, $a ?: 3, 2)}{isFirst($i) ? 'f' : ''}{isLast($i)}{index($i)}{/for}{isFirst($a)}{/template}\n",
+	"{namespace n}\n/** @param? a */\n{template .t}{for $i in range(1, $a ?: 3, 2)}{isFirst($i) ? 'f' : ''}{isLast($i)}{index($i)}{/for}{isFirst($a)}{/template}\n",
 	"{namespace n}\n/** */\n{template .t}{bidiDirAttr()}{/template}\n",
 	"{namespace n}\n{template .t}{length()}{/template}\n",
 	"{namespace n}\n{template .t}{round(1, 2, 3)}{keys()}{augmentMap(1, 2, 3, 4)}{bidiDirAttr('x')}{/template}\n",
